@@ -11,12 +11,13 @@ From GV Require Import Base.Prelude Base.Threads.
 Open Scope nat_scope.
 Open Scope list_scope.
 
-Inductive doc := DValid | DUnknownField | DOtherInvalid.
+(** [DGated]: a valid document that an operation-parameter extension of the executor refuses *)
+Inductive doc := DValid | DUnknownField | DOtherInvalid | DGated.
 
 (** which variants of FieldsOnCorrectType the rule set holds *)
 Record rules := { r_orig : bool; r_nosugg : bool }.
 Definition rejects (r : rules) (d : doc) : bool :=
-  match d with DValid => false | DUnknownField => r_orig r || r_nosugg r | DOtherInvalid => true end.
+  match d with DValid => false | DUnknownField => r_orig r || r_nosugg r | DOtherInvalid | DGated => true end.
 (** what validation answers when nothing else runs *)
 Definition alone (d : doc) : bool := match d with DValid => false | _ => true end.
 
